@@ -195,8 +195,9 @@ def _r2_path(r, program, k, f, env, label, rot_free):
     return r
 
 
-def rule_r3(rep, program: Program):
-    r = rep.rule("R3", "dh2_flow_dmom blocks equal the momentum coefficients of the flow (Euclidean drift and Gaussian rotation)", floor=4)
+def rule_r3(rep, program: Program, prop=PROP, rule="R3"):
+    PROP = prop  # noqa: N806
+    r = rep.rule(rule, "dh2_flow_dmom blocks equal the momentum coefficients of the flow (Euclidean drift and Gaussian rotation)", floor=4)
     one = Rat.const(1)
     # Euclidean: pos' = pos + dt*metric.inv@mom ; blocks (dt*metric.inv, I)
     k = program.cls("ConstrainedEuclideanMetricSystem")
@@ -379,3 +380,7 @@ def run(rep, program: Program, tier: str) -> None:
     from ..effects import StateEffects
 
     rep.isolate(c09.rule_r1, rep, program, StateEffects(program), prop=PROP, rule="R8")
+    # h1_flow is the exact flow of h1 only if dh1_dpos is the gradient of the system's own h1 (shared with C05-R3)
+    from . import c05
+
+    rep.isolate(c05.rule_r3, rep, program, prop=PROP, rule="R9")
